@@ -308,11 +308,11 @@ def p11_command_application(ctx):
         if kv:
             kbb, kt = kv[0]
             ka = arg_origin(cb, kt, 1)
-            kp = access_path(ka) or origin_str(ka)
+            kp = resolved_access_path(prog, cb, ka) or origin_str(ka)
             good = ("self.key" in kp) or ("key" in kp and V == "Del")
             r.add(f, "storage key = the command's key", good, where(cb, kbb), kp)
             if V == "Set":
-                va = access_path(arg_origin(cb, kt, 2)) or ""
+                va = resolved_access_path(prog, cb, arg_origin(cb, kt, 2)) or ""
                 r.add(f, "storage value = the command's value", "self.value" in va, where(cb, kbb), va)
         # await of the join handle
         re_ = ready_edges(b, lambda fo: fo[0] == "call" and fo[3] == site)
